@@ -13,6 +13,7 @@ func NewGen(seed int64) *Gen { return &Gen{R: rand.New(rand.NewSource(seed))} }
 
 func (g *Gen) Pick(xs []string) string { return xs[g.R.Intn(len(xs))] }
 func (g *Gen) Chance(p float64) bool    { return g.R.Float64() < p }
+func (g *Gen) Pick2(xs [][]string) []string { return xs[g.R.Intn(len(xs))] }
 
 var Keys = []string{"k1", "k2", "k3", "k4", ""}
 
